@@ -1,7 +1,7 @@
 (* C02 — value is conserved: trades at the current price change total value only by explicit costs.
    Statements only; proofs in Proofs/TradeProofs.v and Proofs/TreeInv.v. *)
 From Coq Require Import Reals List.
-Require Import BT.Num BT.Base BT.Records BT.Engine BT.Proofs.SecInv BT.Proofs.TreeInv BT.Proofs.TradeProofs BT.Proofs.LedgerProofs BT.Proofs.ValueProofs.
+Require Import BT.Num BT.Base BT.Records BT.Engine BT.Proofs.SecInv BT.Proofs.TreeInv BT.Proofs.TradeProofs BT.Proofs.LedgerProofs BT.Proofs.ValueProofs BT.Proofs.TreeValue.
 Local Open Scope R_scope.
 
 (* buying or selling quantity q at the current (or a custom) price: the parent's cash after booking plus the
@@ -45,3 +45,33 @@ Theorem C02_transact_changes_worth_only_by_costs :
   - (sum_secs A (@s_bidoffer_paid RNumI) kids' - sum_secs A (@s_bidoffer_paid RNumI) kids) - (g_last_fee g' - g_last_fee g).
 Proof. exact flat_transact_value. Qed.
 Print Assumptions C02_transact_changes_worth_only_by_costs.
+
+(* Trees of ANY depth.  On a balanced tree the root's value is all the cash held anywhere in the tree plus
+   position x price x multiplier over every security of the tree ... *)
+Theorem C02_value_is_all_cash_plus_all_holdings : forall (A : Type) (n : node RNumI A),
+  BS n -> raw_value n = total_cash A n + total_holdings A n.
+Proof. exact BS_value_decomposition. Qed.
+Print Assumptions C02_value_is_all_cash_plus_all_holdings.
+
+(* ... so moving capital between a parent and its sub-strategies, which changes neither total, cannot change it *)
+Theorem C02_moving_capital_inside_the_tree_keeps_total_value : forall (A : Type) (n n' : node RNumI A),
+  BS n -> BS n' -> total_cash A n' = total_cash A n -> total_holdings A n' = total_holdings A n -> raw_value n' = raw_value n.
+Proof. exact capital_placement_is_irrelevant. Qed.
+Print Assumptions C02_moving_capital_inside_the_tree_keeps_total_value.
+
+(* First sentence, the update between two dates: StrategyBase.update on a balanced well-formed tree of any depth changes
+   the root's value by the parked cash it sweeps up (coupons less holding costs accrued on the earlier date) plus the
+   mark-to-market change of holdings whose positions and multipliers are exactly the ones held before; no other cash
+   moves. *)
+Theorem C02_date_change_is_carry_plus_mark_to_market :
+  forall (A : Type) (ps : option nat -> tree RNumI A -> result (tree RNumI A)) date inow (n n' : node RNumI A),
+  BS n -> WF n -> node_update ps date inow n = Ok n' ->
+  raw_value n' - raw_value n = swept A date n + (total_holdings A n' - total_holdings A n) /\ leaf_pm A n' = leaf_pm A n.
+Proof. exact date_change_attribution. Qed.
+Print Assumptions C02_date_change_is_carry_plus_mark_to_market.
+
+Theorem C02_update_moves_no_cash_but_the_swept_carry :
+  forall (A : Type) (ps : option nat -> tree RNumI A -> result (tree RNumI A)) date inow (n n' : node RNumI A),
+  node_update ps date inow n = Ok n' -> total_cash A n' = total_cash A n + swept A date n.
+Proof. exact node_update_cash. Qed.
+Print Assumptions C02_update_moves_no_cash_but_the_swept_carry.
